@@ -2,7 +2,7 @@
 # usage: docs/C10.mutants.sh <mutant>... ; applies each hand-made mutant of spec_classes/methods/core.py in a scratch
 # worktree (/tmp/wt-c10, removed afterwards) and runs `bin/check C10 quick` against it.  Mutants: early_true
 # compare_false_counts missing_eq_none repr_skips_last repr_order subclass_equal probe_spec_class_objects redefault_drops_compare
-# compact_key_no_default keyedset_eq_by_key keyedset_repr_unguarded old_eq
+# compact_key_no_default keyedset_eq_by_key keyedset_repr_unguarded field_repr_from_compare old_eq
 # old_deepcopy old_repr (code 2
 # expected) and type_is deep_marker (model drift, no-failing-input-found, expected).
 set -u
@@ -17,6 +17,8 @@ import sys
 p, name = sys.argv[1], sys.argv[2]
 if name == "redefault_drops_compare":      # (seeded/C10-B1) lives in spec_class.py
     p = p.replace("methods/core.py", "spec_class.py")
+if name == "field_repr_from_compare":       # (seeded/C10-D2) lives in types/attr.py
+    p = p.replace("methods/core.py", "types/attr.py")
 if name in ("keyedset_eq_by_key", "keyedset_repr_unguarded"):    # live in types/keyed.py
     p = p.replace("methods/core.py", "types/keyed.py")
 s = open(p).read()
@@ -70,6 +72,8 @@ elif name == "keyedset_eq_by_key":         # (seeded/C10-C2) KeyedSet == KeyedSe
     rep("            return self._dict == other._dict", "            return len(self) == len(other) and all(item in other for item in self)")
 elif name == "keyedset_repr_unguarded":    # reverse of /repo 97568f7: KeyedSet.__repr__ without the recursion guard
     rep('    @reprlib.recursive_repr(fillvalue="{...}")\n    def __repr__(self):', '    def __repr__(self):')
+elif name == "field_repr_from_compare":    # (seeded/C10-D2) dataclasses.field: repr flag taken from compare
+    rep("                repr=value.repr,", "                repr=value.compare,")
 elif name == "subclass_equal":
     rep("        if not isinstance(other, self.__class__):\n            return False", "        if not isinstance(other, self.__class__):\n            return NotImplemented")
 open(p, "w").write(s)
